@@ -80,7 +80,11 @@ def evaluate(world, run):
                 else:
                     probe("ui_verdict_matches_upstream_expectation")
         if fired:
-            probe(f"fault_fired_{fired['kind']}_{fault['phase']}")
+            probe(f"fault_fired_{fired['kind']}_{(fault or step.get('pause') or {}).get('phase')}")
+        if step.get("pause"):
+            probe("process_parked_mid_run" if fired else "pause_point_not_reached")
+        if step.get("peer_parked"):
+            probe("peer_process_ran_while_other_parked")
         if ex["n_errors"] >= 2 and code == 1:
             probe("error_path_with_2plus_diagnostics")
         if code == 1 and any(r in before for r in SDK_FILES) and mode == "generate" and not relaxed:
@@ -97,6 +101,10 @@ def evaluate(world, run):
 
         # ---------------------------------------------------------------- C09
         # 1. termination
+        if ex["timed_out"] and step.get("peer_parked"):
+            # blocked on a lock that the parked process holds: a suspended peer is not this process's fault
+            observe("blocked_by_parked_peer_until_killed")
+            continue
         if ex["timed_out"]:
             viol("C09", "terminates", "wall-clock-timeout", ex,
                  f"killed after {ex['wall_s']} s wall-clock (limit {ex.get('limit_s', step.get('timeout', DEFAULT_TIMEOUT))} s)")
